@@ -195,16 +195,30 @@ func init() {
 	// ---- stubs: formatting, logging, runtime ----
 	setIntrinsic("fmt.Sprintf", func(ex *Exec, fn *ssa.Function, a []Value) Value {
 		f, _ := a[0].(*StrV).Concrete()
+		ex.fmtTraverse(f, a[1])
 		return strConst("<fmt:" + f + ">")
 	})
-	setIntrinsic("fmt.Sprint", func(ex *Exec, fn *ssa.Function, a []Value) Value { return strConst("<fmt>") })
-	setIntrinsic("fmt.Sprintln", func(ex *Exec, fn *ssa.Function, a []Value) Value { return strConst("<fmt>\n") })
+	setIntrinsic("fmt.Sprint", func(ex *Exec, fn *ssa.Function, a []Value) Value {
+		ex.fmtTraverse("", a[0])
+		return strConst("<fmt>")
+	})
+	setIntrinsic("fmt.Sprintln", func(ex *Exec, fn *ssa.Function, a []Value) Value {
+		ex.fmtTraverse("", a[0])
+		return strConst("<fmt>\n")
+	})
 	setIntrinsic("fmt.Errorf", func(ex *Exec, fn *ssa.Function, a []Value) Value {
 		f, _ := a[0].(*StrV).Concrete()
+		ex.fmtTraverse(f, a[1])
 		return ex.errorsNew("<fmt:" + f + ">")
 	})
-	for _, n := range []string{"fmt.Printf", "fmt.Println", "fmt.Print"} {
+	setIntrinsic("fmt.Printf", func(ex *Exec, fn *ssa.Function, a []Value) Value {
+		f, _ := a[0].(*StrV).Concrete()
+		ex.fmtTraverse(f, a[1])
+		return TupleV{i64(0), &IfaceV{}}
+	})
+	for _, n := range []string{"fmt.Println", "fmt.Print"} {
 		setIntrinsic(n, func(ex *Exec, fn *ssa.Function, a []Value) Value {
+			ex.fmtTraverse("", a[0])
 			return TupleV{i64(0), &IfaceV{}}
 		})
 	}
@@ -408,3 +422,98 @@ func (ex *Exec) invokeIntrinsic(recv *IfaceV, m *types.Func, args []Value) (Valu
 func (ex *Exec) nativeCall(fn *ssa.Function, args []Value) (Value, bool) {
 	return nil, false
 }
+
+// fmtTraverse: formatting itself is stubbed, but fmt walks its operands, and it does not detect cycles through
+// slices, maps and interfaces: formatting a self-containing value recurses until the runtime dies with a stack
+// overflow that no recover() can catch. The walk below follows what %v (and the other value verbs) would visit.
+func (ex *Exec) fmtTraverse(format string, args Value) {
+	s, ok := args.(*SliceV)
+	if !ok || s.Arr == nil {
+		return
+	}
+	n, ok := constInt(s.Len)
+	if !ok {
+		return
+	}
+	// verbs in order of appearance ("" = a Print-style call: every operand is formatted by value)
+	var verbs []byte
+	for k := 0; k < len(format); k++ {
+		if format[k] != '%' {
+			continue
+		}
+		k++
+		for k < len(format) && strings.IndexByte("+-# 0123456789.*[]", format[k]) >= 0 {
+			k++
+		}
+		if k < len(format) && format[k] != '%' {
+			verbs = append(verbs, format[k])
+		}
+	}
+	for a := 0; a < n; a++ {
+		if format != "" {
+			if a >= len(verbs) {
+				break
+			}
+			if verbs[a] == 'T' || verbs[a] == 'p' || verbs[a] == 't' || verbs[a] == 'c' {
+				continue
+			}
+		}
+		ex.fmtWalk(s.Arr.cell(s.Off+a).V, 0)
+	}
+}
+
+func (ex *Exec) fmtWalk(v Value, depth int) {
+	if depth > 120 {
+		ex.fail("nopanic", "fmt is asked to format a value that contains itself (through a slice, map or interface): it recurses without end and the process dies with a stack overflow")
+	}
+	switch x := v.(type) {
+	case *IfaceV:
+		if x.T != nil {
+			// an error or Stringer formats itself; its operands were formatted when it was built
+			if types.Implements(x.T, errorIface) {
+				return
+			}
+			ex.fmtWalk(x.V, depth+1)
+		}
+	case *RV:
+		if x.T != nil {
+			ex.fmtWalk(x.val(), depth+1)
+		}
+	case *PtrV:
+		if depth <= 1 && x.P != nil {
+			switch x.P.V.(type) {
+			case *StructV, *ArrV, *SliceV, *MapV:
+				ex.fmtWalk(x.P.V, depth+1)
+			}
+		}
+	case *StructV:
+		for _, c := range x.F {
+			ex.fmtWalk(c.V, depth+1)
+		}
+	case *SliceV:
+		if x.Arr == nil {
+			return
+		}
+		n, ok := constInt(x.Len)
+		if !ok {
+			return
+		}
+		for k := 0; k < n && k < 64; k++ {
+			ex.fmtWalk(x.Arr.cell(x.Off+k).V, depth+1)
+		}
+	case *ArrV:
+		n, _ := constInt(x.N)
+		for k := 0; k < n && k < 64; k++ {
+			ex.fmtWalk(x.cell(k).V, depth+1)
+		}
+	case *MapV:
+		if x != nil {
+			for _, e := range x.E {
+				ex.fmtWalk(e.K, depth+1)
+				ex.fmtWalk(e.C.V, depth+1)
+			}
+		}
+	}
+}
+
+var errorIface = types.Universe.Lookup("error").Type().Underlying().(*types.Interface)
